@@ -505,6 +505,18 @@ follows it -/
 example : newOperationWith { onNil := .next, onIgnored := .brk, onReal := .retErr }
     [.ignored, .level [120]] [] = .ok [] := rfl
 
+/-- `secret_sent_verbatim`: on an authenticated edge whose device asks for the password, the
+escalate step makes the device receive exactly two lines while still in the parent: the escalate
+command of the child, then the secondary secret — the very byte string that was configured,
+whatever it is (blanks, tabs, any bytes; the return that ends the line is the channel's). -/
+theorem secret_sent_verbatim {c : Cfg} (hd : Dom c) (s : Sess) (h : s.dev.awaiting = none) {x : Bytes}
+    (hp : par c.L x = some s.dev.mode) (hasks : c.asks x = true) :
+    escalate c s x = (none, { s with dev :=
+      { mode := x, awaiting := none,
+        log := s.dev.log ++ [(s.dev.mode, escCmd c.L x), (s.dev.mode, c.secret)] } }) := by
+  rw [escalate_ok hd s h hp]
+  simp [hasks]
+
 /-! ## between the operations: `GetPrompt`, refused operations, reconfiguration (`PrivScript.lean`) -/
 
 /-- `GetPrompt` on the network driver: one bare return reaches the device in its current mode, the
